@@ -994,6 +994,10 @@ impl Engine {
                             // for an angle in (-pi, pi]: cos(t/2) >= 0 and sin(t/2) has the sign of t
                             out.push_str(&format!("(assert (=> (and (< (- pi) {}) (<= {} pi)) (and (>= {} 0.0) (=> (>= {} 0.0) (>= {} 0.0)) (=> (<= {} 0.0) (<= {} 0.0)))))\n", tu, tu, f2, tu, f1, tu, f1));
                             work.push((fam.clone(), tu, tid));
+                        } else if c == Rat::new(1, 2).unwrap() && fam == Fam::Hyp {
+                            // cosh t = 2 cosh^2(t/2) - 1 = 2 sinh^2(t/2) + 1, sinh t = 2 sinh(t/2) cosh(t/2)
+                            out.push_str(&format!("(assert (= (* 2.0 (* {} {})) (+ {} 1.0)))\n(assert (= (* 2.0 (* {} {})) (- {} 1.0)))\n(assert (= (* 2.0 (* {} {})) {}))\n", f2, f2, ct, f1, f1, ct, f1, f2, st));
+                            work.push((fam.clone(), tu, tid));
                         } else if c == Rat::int(2) {
                             let cg = if fam == Fam::Trig { "-" } else { "+" };
                             out.push_str(&format!("(assert (= {} (* 2.0 (* {} {}))))\n(assert (= {} ({} (* {} {}) (* {} {}))))\n", f1, st, ct, f2, cg, ct, ct, st, st));
